@@ -36,9 +36,12 @@ PROFILES = {
     "N": dict(members=["network"], replace={}, kcoll=["network"]),
 }
 
+# "<P>8": same as <P> with kcoll capacity 8 (committees of up to 7)
+PROFILES["L8"] = PROFILES["L"]
 PATCHES = {
     "L": ["tokio", "ed25519-dalek", "async-recursion", "bincode"],
     "R": ["tokio", "ed25519-dalek", "async-recursion"],
+    "L8": ["tokio", "ed25519-dalek", "async-recursion", "bincode"],
     "S": ["tokio", "rocksdb"],
     "N": ["tokio", "tokio-util"],
 }
@@ -46,7 +49,7 @@ PATCHES = {
 # real file -> harness modules attached to it (harness file must exist to be attached)
 ATTACH = {
     "consensus/src/config.rs": ["config_h.rs"],
-    "consensus/src/core.rs": ["core_env.rs", "core_h.rs"],
+    "consensus/src/core.rs": ["core_env.rs", "core_h.rs", "core2_h.rs"],
     "consensus/src/messages.rs": ["messages_h.rs"],
     "consensus/src/aggregator.rs": ["aggregator_h.rs"],
     "consensus/src/leader.rs": ["leader_h.rs"],
@@ -69,7 +72,7 @@ ATTACH = {
 }
 # profile restrictions for attachments (file prefix -> profiles in which the real file exists)
 REAL_IN = {
-    "consensus/": ["L", "R"], "mempool/": ["L", "R"], "crypto/": ["R"], "store/": ["S"], "network/": ["N"],
+    "consensus/": ["L", "R", "L8"], "mempool/": ["L", "R", "L8"], "crypto/": ["R"], "store/": ["S"], "network/": ["N"],
 }
 
 USE_RE = re.compile(r"^(\s*use\s+)std::collections::(\{[^}]*\}|\w+)\s*;\s*$")
@@ -82,8 +85,8 @@ def rewrite_hash_imports(path):
         m = USE_RE.match(line)
         if m:
             names = m.group(2).strip("{}").replace(" ", "").split(",")
-            hashy = [n for n in names if n in ("HashMap", "HashSet")]
-            other = [n for n in names if n and n not in ("HashMap", "HashSet")]
+            hashy = [n for n in names if n in ("HashMap", "HashSet", "VecDeque")]
+            other = [n for n in names if n and n not in ("HashMap", "HashSet", "VecDeque")]
             if hashy:
                 changed = True
                 out.append("%skcoll::{%s};" % (m.group(1), ", ".join(hashy)))
@@ -96,12 +99,86 @@ def rewrite_hash_imports(path):
     return changed
 
 
+# files whose straight-line `async fn`s are lowered to plain functions (see deasync)
+DEASYNC = ["consensus/src/core.rs", "consensus/src/synchronizer.rs", "consensus/src/messages.rs", "consensus/src/mempool.rs"]
+ASYNC_FN_RE = re.compile(r"\basync fn\s+(\w+)")
+
+
+def _match_brace(s, i):
+    """index of the brace closing the one at s[i] (string/char literals and comments are skipped approximately)"""
+    d, n = 0, len(s)
+    while i < n:
+        c = s[i]
+        if c == '"':
+            i += 1
+            while s[i] != '"':
+                i += 2 if s[i] == "\\" else 1
+        elif c == "/" and s[i + 1] == "/":
+            i = s.index("\n", i)
+        elif c == "{":
+            d += 1
+        elif c == "}":
+            d -= 1
+            if d == 0:
+                return i
+        i += 1
+    raise ValueError("unbalanced braces")
+
+
+def deasync(path):
+    """Mechanical lowering of `async fn f(args) -> T { body }` to
+           fn f(args) -> ::tokio::Ready<T> { ::tokio::Ready((move || -> T { body' })()) }
+    with every `.await` in body' replaced by `.vnow()` (poll exactly once; Pending is a hard error). In the shim environment every
+    awaited future of these functions is immediately ready, so the two are equivalent; what changes is that CBMC sees ordinary
+    functions instead of compiler-generated coroutine state machines. Functions whose body contains `select!`, `spawn(` or an
+    `async` block keep their real async form (they need genuine suspension) and call the lowered ones through `Ready: Future`.
+    Returns the list of lowered function names."""
+    s = open(path).read()
+    out, pos, lowered, kept = [], 0, [], []
+    while True:
+        m = ASYNC_FN_RE.search(s, pos)
+        if not m:
+            out.append(s[pos:])
+            break
+        # signature runs to the first '{' at parenthesis depth 0
+        i, d = m.end(), 0
+        while not (s[i] == "{" and d == 0):
+            if s[i] in "(<[":
+                d += 1 if s[i] != "<" else 0
+            if s[i] in ")]":
+                d -= 1
+            i += 1
+        j = _match_brace(s, i)
+        sig, body = s[m.start():i], s[i + 1:j]
+        if re.search(r"select!|spawn\(|\basync\b", body):
+            kept.append(m.group(1))
+            out.append(s[pos:j + 1])
+            pos = j + 1
+            continue
+        sig2 = sig.replace("async fn", "fn", 1).rstrip()
+        am = re.search(r"\)\s*->\s*(.+)$", sig2, re.S)
+        if am:
+            ret = am.group(1).strip()
+            sig2 = sig2[:am.start()] + ") -> ::tokio::Ready<%s> " % ret
+        else:
+            ret = "()"
+            sig2 = sig2 + " -> ::tokio::Ready<()> "
+        body2 = body.replace(".await", ".vnow()")
+        out.append(s[pos:m.start()])
+        out.append("%s{ #[allow(unused_imports)] use ::tokio::VNow as _; ::tokio::Ready((move || -> %s {%s})()) }" % (sig2, ret, body2))
+        lowered.append(m.group(1))
+        pos = j + 1
+    open(path, "w").write("".join(out).replace("#[async_recursion]", ""))
+    return lowered, kept
+
+
 def main():
     ap = argparse.ArgumentParser()
     ap.add_argument("--profile", required=True, choices=sorted(PROFILES))
     ap.add_argument("--out", required=True)
     ap.add_argument("--repo", default=os.environ.get("VERIF_REPO", "/repo"))
     ap.add_argument("--features", default="")
+    ap.add_argument("--replay", action="store_true", help="native replay build: harnesses become #[test]s, kani attributes are stripped")
     a = ap.parse_args()
     prof = PROFILES[a.profile]
     out = os.path.abspath(a.out)
@@ -118,14 +195,19 @@ def main():
         else:
             shutil.copytree(src, os.path.join(out, m), ignore=shutil.ignore_patterns("target", ".*.swp"))
     # members that are dependencies but not listed: none by construction (path deps stay inside `members`)
+    shutil.copytree(os.path.join(SHIMS, "vwit"), os.path.join(out, "vwit"))
     shutil.copytree(os.path.join(SHIMS, "kcoll"), os.path.join(out, "kcoll"))
+    if a.profile.endswith("8"):
+        kp = os.path.join(out, "kcoll", "src", "lib.rs")
+        ks = open(kp).read().replace("pub const CAP: usize = 4;", "pub const CAP: usize = 8;")
+        open(kp, "w").write(ks)
     for p in PATCHES[a.profile]:
         shutil.copytree(os.path.join(SHIMS, p), os.path.join(out, "_shim_" + p))
 
     # 2. workspace manifest
     real_members = [m for m in prof["members"]]
     # drop path deps that are not members in this profile (S and N profiles are single crates)
-    ws = "[workspace]\nmembers = [%s]\n\n[patch.crates-io]\n" % ", ".join('"%s"' % m for m in real_members + ["kcoll"])
+    ws = "[workspace]\nmembers = [%s]\n\n[patch.crates-io]\n" % ", ".join('"%s"' % m for m in real_members + ["kcoll", "vwit"])
     for p in PATCHES[a.profile]:
         ws += '%s = { path = "_shim_%s" }\n' % (p, p)
     ws += "\n[profile.dev]\ndebug = false\n"
@@ -140,7 +222,10 @@ def main():
             continue
         ct = os.path.join(out, m, "Cargo.toml")
         s = open(ct).read()
-        s = re.sub(r"(?m)^\[dependencies\]\s*$", '[dependencies]\nkcoll = { path = "../kcoll" }', s, count=1)
+        s = re.sub(r"(?m)^\[dependencies\]\s*$", '[dependencies]\nkcoll = { path = "../kcoll" }\nvwit = { path = "../vwit" }', s, count=1)
+        if a.replay:
+            # the repository's own test modules and dev-dependencies target the real runtime, not the shims
+            s = re.sub(r"(?ms)^\[dev-dependencies\].*?(?=^\[|\Z)", "", s)
         if "[lints.rust]" not in s:
             s += '\n[lints.rust]\nunexpected_cfgs = { level = "allow" }\n'
         open(ct, "w").write(s)
@@ -148,14 +233,38 @@ def main():
             for f in files:
                 if f.endswith(".rs") and "/tests" not in root:
                     p = os.path.join(root, f)
+                    if a.replay:
+                        src = open(p).read()
+                        src2 = re.sub(r'#\[cfg\(test\)\]\s*\n#\[path = "tests/[^"]+"\]\s*\n(pub )?mod \w+;', "", src)
+                        if src2 != src:
+                            open(p, "w").write(src2)
                     if rewrite_hash_imports(p):
                         report["rewritten_imports"].append(os.path.relpath(p, out))
+
+    # 3b. lower straight-line async fns of the Core family to plain functions
+    report["deasync"] = {}
+    if a.profile in ("L", "L8", "R"):
+        for rel in DEASYNC:
+            p = os.path.join(out, rel)
+            if os.path.exists(p):
+                lowered, kept = deasync(p)
+                report["deasync"][rel] = {"lowered": lowered, "kept_async": kept}
 
     # 4. attach harness modules (a private copy inside the overlay, so that Kani's in-place
     #    concrete playback edits the scratch copy and never /verif)
     global HARNESS
     shutil.copytree(HARNESS, os.path.join(out, "_harness"))
     HARNESS = os.path.join(out, "_harness")
+    guard = "verif_replay" if a.replay else "kani"
+    if a.replay:
+        for root, _, files in os.walk(HARNESS):
+            for f in files:
+                hp = os.path.join(root, f)
+                src = open(hp).read()
+                src = src.replace("#[kani::proof]", "#[test]")
+                src = re.sub(r"(?m)^\s*#\[kani::(unwind|stub|solver)\([^\n]*\)\]\s*\n", "", src)
+                src = src.replace("#[cfg(kani)]", "#[cfg(verif_replay)]")
+                open(hp, "w").write(src)
     for rel, mods in ATTACH.items():
         ok = any(rel.startswith(pref) and a.profile in profs for pref, profs in REAL_IN.items())
         p = os.path.join(out, rel)
@@ -167,7 +276,7 @@ def main():
             hp = os.path.join(HARNESS, h)
             if os.path.exists(hp):
                 relp = "../" * (rel.count("/")) + "_harness/" + h
-                extra += '\n#[cfg(kani)]\n#[path = "%s"]\npub(crate) mod kani_%s;\n' % (relp, h[:-3])
+                extra += '\n#[cfg(%s)]\n#[path = "%s"]\npub(crate) mod kani_%s;\n' % (guard, relp, h[:-3])
                 report["attached"].append((rel, h))
         if extra:
             with open(p, "a") as f:
@@ -180,7 +289,7 @@ def main():
         ok = any(rel.startswith(pref) and a.profile in profs for pref, profs in REAL_IN.items())
         if ok and os.path.exists(p):
             with open(p, "a") as f:
-                f.write("\n" + open(os.path.join(apdir, fn)).read())
+                f.write("\n" + open(os.path.join(apdir, fn)).read())  # (cfg(kani) already rewritten to cfg(test) in replay mode)
             report["attached"].append((rel, "append/" + fn))
     import json
     json.dump(report, open(os.path.join(out, "overlay_report.json"), "w"), indent=1)
